@@ -78,6 +78,12 @@ CHECKS.update({
                "Lean 4 proof (decide +kernel per table + generic lifting theorem) over syntactically regenerated tables + exhaustive String() correspondence + stringer re-run", "6/C20"),
 })
 
+CHECKS.update({
+    "C19": chk("Partial: only the table-content clause is a theorem. Proved over GenCore (model of the row filter → struct index → lookup entry pipeline): gen_entries_exact (every enabled row has its entry with the row's field number and type code and struct index = number of enabled rows of the message before it), gen_one_per_enabled_row, gen_disabled_absent, gen_sindex_dense. Observed on the real command on every run (cannot be theorems: exit status, Go type checking, run-to-run determinism): the 5 bundled workbooks (xlsx and SDK-zip input) and dependency-closed product-profile variants built by editing the workbook XML, each generated twice; byte-identical outputs; declared SDK version; tables extracted from the generated sources (go/ast) equal the tables computed from the independently read workbook rows (own zip/XML reader) and by the Lean model; compilation with the minimal support set. Compilation with the whole hand-written library fails for all bundled workbooks: known finding D16.",
+               "Lean 4 proof over the generator-core model + real fitgen runs on workbook variants with an independent workbook reader", "6/C19",
+               note="Trusted: the independent xlsx reader and the go/ast extractor of generated tables; the Go compiler for the compilation clause. " + NOTE_COMMON),
+})
+
 NOT_YET = {}
 
 def main():
